@@ -40,9 +40,12 @@ CHECKS = {
              'exactly; all fixture files (as whole trees and as per-fragment windows) are parsed in three modes and re-encoded byte for byte, '
              'eager and lazy field values and JSON round trips are compared, real trees are edited through the public API and the encoded '
              'result is walked by the independent reader whose tree TLC checks recursively (sizes nest, top level tiles the buffer), and '
-             'boundary values of mfhd, tfdt, emsg and pssh are round-tripped.',
+             'boundary values of mfhd, tfdt, emsg and pssh are round-tripped; legal byte values are written into stored leaf boxes, an '
+             'empty box is inserted as first / last child of every container of every stored moov, and every header form (compact, '
+             'size 0, largesize, uuid) is round-tripped.',
         note='Trusted: TLC, the independent walker. This property is the least natural for TLA+: the spec decides structure and sizes; byte '
-             'equality is computed by the harness. Box classes without a fixture are listed in the evidence (box_classes_not_in_fixtures).',
+             'equality is computed by the harness. Box classes without a fixture are listed in the evidence (box_classes_not_in_fixtures). Known findings: the encoder normalises '
+             'size-0 and largesize headers to the compact form.',
         design='4 C04'),
     'C05': dict(
         technique='TLA+ spec MpdRules.tla (structural MPD rules over a projected tree): rules checked by TLC against a catalogue of broken '
@@ -82,11 +85,15 @@ CHECKS = {
              'only with instants before 2038. Known finding C08-publish-regress matched by signature.', design='4 C08'),
     'C09': dict(
         technique='TLA+ spec Refresh.tla over LiveWindow: TLC on timelines at e and e+delta; pure-layer pairs and real manifest/patch '
-                  'documents (patch applied by an independent XML-patch applier) validated by TLC',
+                  'documents (patch applied by an independent XML-patch applier) validated by TLC; system-level PlayerSession.tla '
+                  '(ideal server + player, TLC safety and liveness) with real player sessions validated by PlayerSessionTrace',
         text='TLC checks on the implementation-shaped timeline model that manifests at e and e+delta agree on common segments and that '
              'the window only moves forward for every layout, option set and delta of the grid; the same clauses (plus publishTime / '
              'availabilityStartTime monotonicity) are evaluated on pairs from the real timing layer and from real manifests, and for '
-             'patches the T1 document is patched with the response to its PatchLocation at T2 and compared with the full T2 manifest.',
+             'patches the T1 document is patched with the response to its PatchLocation at T2 and compared with the full T2 manifest. '
+             'A player model (refresh / fetch in order / skip, weak fairness) is checked by TLC against an ideal server, and real player '
+             'sessions over the HTTP layer (seeded waits, SegmentTimeline templates) are validated line by line: gapless timelines, '
+             'window and publishTime only forward, common segments agree, listed ended segments served, served time exact.',
         note='Trusted: TLC, lxml, the minimal replace-only XML-patch applier. Known finding C09-patch-symbolic-start-rollover.', design='4 C09'),
     'C10': dict(
         technique='TLA+ trace spec SegmentRewriteTrace.tla (C10 clauses) + decision of expected pssh systems from the DRM selection; real init '
@@ -151,7 +158,9 @@ CHECKS = {
         text='TLC explores every request sequence (depth 6, 2 clients, 3 positions, 6 injection specifications, failure count absent/1/2) of '
              'the implementation-shaped counter machine against the property-level clauses; the same specifications are driven through '
              'real video/audio/text/manifest requests and validated (clauses + model drift); a grid generated from the live option registry '
-             'and broken streams / mutated MP4 input is sent with exception propagation off under a wall-clock cap and TLC judges every status.',
+             'and broken streams / mutated MP4 input (top-level and nested size edits, dense truncations, bit flips, size-0 last box; parser '
+             'in lazy and eager mode and the upload / index / inspect endpoints) is sent with exception propagation off under a wall-clock cap '
+             'and TLC judges every status.',
         note='Trusted: TLC, shims, the SIGALRM wall-clock cap. The open-ended half of the property is exploration over a generated grid, not '
              'a proof (level_note in DESIGN.md section 7). Remaining 500s are listed one by one in known_findings.json by exception type and call site.',
         design='4 C16'),
